@@ -23,6 +23,7 @@ type KnownFinding struct {
 }
 
 var verifDir = "/verif"
+var repoDir = "/repo" // VERIF_REPO overrides (used to run the checks against a scratch worktree)
 
 func loadKnown() map[string]KnownFinding {
 	out := map[string]KnownFinding{}
@@ -52,6 +53,9 @@ func main() {
 	noValidate := flag.Bool("novalidate", false, "skip native validation of sampled paths (diagnostic)")
 	replayFile := flag.String("replay", "", "replay a recorded counterexample file natively")
 	flag.Parse()
+	if d := os.Getenv("VERIF_REPO"); d != "" {
+		repoDir = d
+	}
 	if d := os.Getenv("VERIF_DIR"); d != "" {
 		verifDir = d
 	}
@@ -89,6 +93,15 @@ func main() {
 	eng.tier = *tier
 	eng.verbose = *verbose
 	known := loadKnown()
+	if *verbose {
+		slowLog = func(d time.Duration, r SatResult, ctx func() string) {
+			c := ""
+			if ctx != nil {
+				c = ctx()
+			}
+			fmt.Fprintf(os.Stderr, "   slow query %.1fs %s %s\n", d.Seconds(), r, c)
+		}
+	}
 
 	var runs []*HarnessRun
 	for _, h := range suite.Harnesses {
